@@ -495,7 +495,7 @@ class Ctx:
                     # verif_cNN_*.go shims belong to property CNN; a check only
                     # injects the shared shims, its own, and those it lists in
                     # ctx.overlay_tags (so one property's shim cannot break another's build)
-                    m = re.match(r"verif_(c\d\d)_", fn)
+                    m = re.match(r"verif_([cx]\d\d[a-z]*)_", fn)
                     if m and m.group(1).upper() != self.pid and m.group(1) not in self.overlay_tags:
                         continue
                     src = os.path.join(dp, fn)
